@@ -45,6 +45,8 @@ func runC01(c *Ctx) {
 	// en-passant captures are generated from the recorded target: the recording rule is part of C01 too
 	c02R2(c, p, "C01.R6.ep-recorded")
 	c02R7(c, p, "C01.R6.ep-capturable")
+	// "whether the position was loaded from FEN or reached by playing moves": a re-used board must not keep state
+	parseFENResetRule(c, p, "C01.R7")
 }
 
 // descends: own functions from which board.MakeMove is reachable (they play moves on the board).
